@@ -27,13 +27,15 @@ type loadCase struct {
 	N       int       `json:"n"` // -1 = no limit
 }
 
-func doLoad(w *seqx.World, lc loadCase, mh cid.Cid, heads []iface.IPFSLogEntry) (*ipfslog.IPFSLog, error) {
+func doLoad(w *seqx.World, lc loadCase, mh cid.Cid, heads []iface.IPFSLogEntry, lo *ipfslog.LogOptions) (*ipfslog.IPFSLog, error) {
 	var lp *int
 	if lc.N >= 0 {
 		n := lc.N
 		lp = &n
 	}
-	lo := &ipfslog.LogOptions{ID: "X", SortFn: w.Cfg.SortFnOrNil()}
+	if lo == nil {
+		lo = &ipfslog.LogOptions{ID: "X", SortFn: w.Cfg.SortFnOrNil()}
+	}
 	var hashes []cid.Cid
 	for _, h := range heads {
 		hashes = append(hashes, h.GetHash())
@@ -71,7 +73,19 @@ func loadOne(p *run.Part, prop string, cfg *seqx.Config, lc loadCase) {
 		return
 	}
 	var got *ipfslog.IPFSLog
-	pv, stack := run.Safe(func() { got, err = doLoad(w, lc, mh, heads) })
+	// A caller that loads the same log again and again keeps its options object: with concurrency 1 the options
+	// of this load were already used for a load of the replica's previous state (one operation earlier).
+	var lo *ipfslog.LogOptions
+	if lc.N < 0 && lc.Conc == 1 && len(lc.Path) > 0 {
+		w0 := seqx.Replay(cfg, lc.Path[:len(lc.Path)-1])
+		if l0 := w0.Logs[lc.Replica]; l0.Len() > 0 && (lc.Loader != "entryhash" || l0.Heads().Len() == 1) {
+			if mh0, err0 := l0.ToMultihash(world.Ctx); err0 == nil {
+				lo = &ipfslog.LogOptions{ID: "X", SortFn: w.Cfg.SortFnOrNil()}
+				run.Safe(func() { doLoad(w0, lc, mh0, l0.Heads().Slice(), lo) })
+			}
+		}
+	}
+	pv, stack := run.Safe(func() { got, err = doLoad(w, lc, mh, heads, lo) })
 	desc := fmt.Sprintf("after %s: replica %d rebuilt with %s (concurrency %d, limit %d)", seqx.PathString(lc.Path), lc.Replica, lc.Loader, lc.Conc, lc.N)
 	p.Add(0, 1, 0, 1)
 	if pv != nil {
